@@ -1230,6 +1230,38 @@ func c17WrapperInside(t *testing.T, st *c17Stats) {
 	}
 }
 
+// c17ByteErr: an error type of kind uint8. In a slice or array printed with %v or %d its elements are printed one by one
+// (each goes to the hook); only the byte-string verbs s, q, x, X take such a slice as a whole, as fmt does.
+type c17ByteErr uint8
+
+func (e c17ByteErr) Error() string { c17Note("Error", "byteerr"); return "E!b" + strconv.Itoa(int(e)) }
+
+func c17ByteKindElements(t *testing.T, st *c17Stats) {
+	for _, tc := range []struct {
+		txt   string
+		v     interface{}
+		calls int
+	}{
+		{"[]c17ByteErr{1, 2}", []c17ByteErr{1, 2}, 2},
+		{"[2]c17ByteErr{1, 2}", [2]c17ByteErr{1, 2}, 2},
+		{"struct{F []c17ByteErr}{{1, 2}}", struct{ F []c17ByteErr }{[]c17ByteErr{1, 2}}, 2},
+		{"map[SafeString][]c17ByteErr{\"k\": {3}}", map[SafeString][]c17ByteErr{"k": {3}}, 1},
+	} {
+		for _, d := range []string{"%v", "%d", "%+v"} {
+			c17Reset()
+			out := string(Sprintf(d, tc.v))
+			n := len(c17Calls)
+			c17Reset()
+			st.cases++
+			st.nontrivial++
+			if n != tc.calls {
+				c17Fail(t, st, fmt.Sprintf("Sprintf(%q, %s) /* hook installed; type c17ByteErr uint8 with an Error method */", d, tc.txt), out,
+					fmt.Sprintf("the hook is called %d times, want %d: every element is an error value reached through a slice", n, tc.calls))
+			}
+		}
+	}
+}
+
 func TestVerifReplayC17(t *testing.T) {
 	defer c17Install()()
 	st := &c17Stats{maxFails: 12}
@@ -1312,6 +1344,11 @@ func TestVerifBoundedC17(t *testing.T) {
 	c17WrapperInside(t, st6)
 	c17Bounded("Safe(err)/Unsafe(err) held in an exported interface-typed field, a []interface{} element, a map value or a reflect.Value operand renders exactly like the same wrapper as a top-level operand inside fmt's container syntax: hook bypassed and plain text enveloped under Unsafe, rendered solely by the hook under Safe",
 		st6, "all cases: a non-nil error that must go to the hook, wrapped, inside a container", fmt.Sprintf("%d operands x 4 positions x verbs {v,+v,s,d,q} x {Safe, Unsafe}", len(c17Table)))
+
+	st7 := &c17Stats{maxFails: 8}
+	c17ByteKindElements(t, st7)
+	c17Bounded("error values of kind uint8 as elements of slices and arrays under %v, %d, %+v: each element is rendered by the hook (the byte-string shortcut applies to the verbs s, q, x, X only)",
+		st7, "all", "4 container shapes x 3 directives")
 
 	// not claimed: unexported fields
 	st5 := &c17Stats{maxFails: 8}
